@@ -1,9 +1,10 @@
-(** C03 — what agreement between model and implementation on one case implies for the
-    implementation's observation (the clauses of the property that the model can vouch for). *)
+(** C03 — bridge: for a transaction or block-header case inside the domain ([wf_case]), agreement
+    of every observed quantity with the model's prediction ([run_case]) implies the property on
+    the implementation's observation ([prop_case]). *)
 From Coq Require Import List NArith ZArith Bool Lia.
 From V.Lib Require Import Base Hex.
 From V.Gen Require Import C03Tables.
-From V.C03 Require Import Codec Model Spec Corr Proofs.
+From V.C03 Require Import Codec Sha256 Model Spec Corr Wf Proofs.
 Import ListNotations.
 Local Open Scope N_scope.
 
@@ -12,6 +13,8 @@ Proof.
   induction a as [|x a IH]; intros [|y b] H; cbn in H; try discriminate; [reflexivity|].
   apply andb_true_iff in H as [H1 H2]. apply N.eqb_eq in H1. subst. f_equal. apply IH. exact H2.
 Qed.
+Lemma bytes_eqb_refl : forall a, bytes_eqb a a = true.
+Proof. induction a as [|x a IH]; cbn; [reflexivity|]. rewrite N.eqb_refl. exact IH. Qed.
 
 Lemma firstn_enc {A} (c : codec A) (t : A) r n :
   n + nlen r = nlen (enc c t ++ r) -> firstn (N.to_nat n) (enc c t ++ r) = enc c t.
@@ -20,44 +23,187 @@ Proof.
   unfold nlen. rewrite Nat2N.id. rewrite firstn_app, Nat.sub_diag, firstn_all. cbn. apply app_nil_r.
 Qed.
 
-(** If the model agrees with an accepting observation then: the reader consumed no more than it
-    was given, what [write] produced is exactly the consumed prefix, that prefix is the unique
-    encoding of a well-formed model transaction (so every length prefix in it is canonical and at
-    most MAX_COMPACT_SIZE), and every amount field is within its money range. *)
-Lemma tx_bridge : forall src b bad n rw s h g,
-  run_case (Tx src b bad (Ok (TxOk n rw s h g))) = true ->
-  n <= nlen b /\
-  prefix_or b n rw = firstn (N.to_nat n) b /\
+(** reading a little-endian u32 back out of an encoding *)
+Lemma u32_at_app pre x rest off :
+  length pre = off -> x < 4294967296 -> u32_at off (pre ++ le 4 x ++ rest) = x.
+Proof.
+  intros <- Hx. unfold u32_at.
+  rewrite skipn_app, skipn_all, Nat.sub_diag. cbn [app skipn].
+  rewrite firstn_app, le_length, Nat.sub_diag, firstn_O, app_nil_r.
+  rewrite firstn_all2 by (rewrite le_length; lia).
+  apply of_le_le. rewrite pow256_4. exact Hx.
+Qed.
+
+Lemma u32_at_head x rest : x < 4294967296 -> u32_at 0 (le 4 x ++ rest) = x.
+Proof. intros Hx. exact (u32_at_app [] x rest 0%nat eq_refl Hx). Qed.
+
+Lemma wf_u32 x : wf c_u32le x = true -> x < 4294967296.
+Proof. cbn [c_u32le c_uint wf]. rewrite pow256_4. apply N.ltb_lt. Qed.
+
+Section BridgeTx.
+  Variable valid : N -> bytes -> bool.
+  Notation cd := (c_tx valid).
+
+  (** the first header word of an encoding *)
+  Lemma enc_tx_head (t : tx_t) :
+    wf cd t = true ->
+    exists rest, enc cd t = le 4 (fst (hdr_to (fst t))) ++ rest /\ fst (hdr_to (fst t)) < 4294967296.
+  Proof.
+    destruct t as [v body]. unfold c_tx. rewrite wf_dep. cbn [fst snd]. intros H.
+    apply andb_true_iff in H as [Hv _].
+    unfold c_version in Hv. cbn [c_iso wf] in Hv. apply andb_true_iff in Hv as [_ Hv].
+    unfold c_hdr_raw in Hv. rewrite wf_refine, wf_dep in Hv.
+    apply andb_true_iff in Hv as [Hv _]. apply andb_true_iff in Hv as [Hh _].
+    apply wf_u32 in Hh.
+    eexists. split; [|exact Hh].
+    cbn [c_tx c_dep enc fst snd c_version c_iso c_hdr_raw c_refine c_u32le c_uint].
+    rewrite <- !app_assoc. reflexivity.
+  Qed.
+
+  Lemma legacy_hdr_enc (t : tx_t) r :
+    wf cd t = true -> legacy_hdr (enc cd t ++ r) = is_legacy (fst t).
+  Proof.
+    intros W. pose proof W as W'. destruct (enc_tx_head t W) as (rest & E & Hh).
+    unfold legacy_hdr. rewrite E, <- app_assoc.
+    rewrite (u32_at_head _ _ Hh).
+    destruct t as [v body]. cbn [fst] in *.
+    unfold c_tx in W'. rewrite wf_dep in W'. cbn [fst snd] in W'. apply andb_true_iff in W' as [Hv _].
+    unfold c_version in Hv. cbn [c_iso wf] in Hv. apply andb_true_iff in Hv as [Hv _].
+    destruct v as [n| | | |]; try (vm_compute; reflexivity).
+    cbn [hdr_to fst is_legacy]. unfold txv_ok in Hv. apply andb_true_iff in Hv as [_ Hv].
+    unfold OVW in Hv. rewrite Hv. reflexivity.
+  Qed.
+
+  (** a well-formed value has the body shape of its version *)
+  Lemma body_shape (t : tx_t) :
+    wf cd t = true ->
+    match fst t, snd t with
+    | V5, inr (inl _) => True
+    | V6, inr (inr _) => True
+    | V5, _ | V6, _ => False
+    | _, inl _ => True
+    | _, _ => False
+    end.
+  Proof.
+    destruct t as [v body]. unfold c_tx. rewrite wf_dep. cbn [fst snd]. intros H.
+    apply andb_true_iff in H as [_ H].
+    destruct v; cbn [c_body] in H; destruct body as [x|[x|x]]; cbn [c_inl c_inr wf] in H;
+      try discriminate; exact I.
+  Qed.
+
+  Lemma legacy_branch ctx (t : tx_t) :
+    wf cd t = true -> is_legacy (fst t) = true -> effective_branch ctx t = ctx.
+  Proof.
+    intros W L. pose proof (body_shape t W) as S. unfold effective_branch.
+    destruct t as [v body]. cbn [fst snd] in *.
+    destruct v; try discriminate L; destruct body as [x|[x|x]]; try contradiction; reflexivity.
+  Qed.
+
+  Lemma encoded_branch ctx (t : tx_t) r :
+    wf cd t = true -> is_legacy (fst t) = false ->
+    u32_at 8 (enc cd t ++ r) = effective_branch ctx t.
+  Proof.
+    intros W L. pose proof (body_shape t W) as S. unfold effective_branch.
+    destruct t as [v body]. cbn [fst snd] in *.
+    unfold c_tx in W. rewrite wf_dep in W. cbn [fst snd] in W. apply andb_true_iff in W as [_ W].
+    destruct v; try discriminate L; destruct body as [x|[x|x]]; try contradiction;
+      cbn [c_body c_inl c_inr wf] in W.
+    - unfold c_v5 in W. rewrite wf_dep in W. apply andb_true_iff in W as [W _].
+      unfold c_hdrfrag in W. rewrite wf_pair, wf_refine in W.
+      apply andb_true_iff in W as [W _]. apply andb_true_iff in W as [W _]. apply wf_u32 in W.
+      cbn [c_tx c_dep enc fst snd c_body c_inr c_inl c_v5 c_hdrfrag c_pair c_refine
+           c_version c_iso c_hdr_raw hdr_to c_u32le c_uint c_opt].
+      change (OVW <=? OVW + V5_TX_VERSION) with true. cbn [c_some enc].
+      rewrite <- !app_assoc.
+      rewrite (app_assoc (le 4 _) (le 4 _)).
+      apply u32_at_app; [rewrite app_length, !le_length; reflexivity | exact W].
+    - unfold c_v6 in W. rewrite wf_dep in W. apply andb_true_iff in W as [W _].
+      unfold c_hdrfrag in W. rewrite wf_pair, wf_refine in W.
+      apply andb_true_iff in W as [W _]. apply andb_true_iff in W as [W _]. apply wf_u32 in W.
+      cbn [c_tx c_dep enc fst snd c_body c_inr c_inl c_v6 c_hdrfrag c_pair c_refine
+           c_version c_iso c_hdr_raw hdr_to c_u32le c_uint c_opt].
+      change (OVW <=? OVW + V6_TX_VERSION) with true. cbn [c_some enc].
+      rewrite <- !app_assoc.
+      rewrite (app_assoc (le 4 _) (le 4 _)).
+      apply u32_at_app; [rewrite app_length, !le_length; reflexivity | exact W].
+  Qed.
+End BridgeTx.
+
+Definition is_tx_or_hdr (c : case) : bool :=
+  match c with Tx _ _ _ _ _ _ | Hdr _ _ _ _ => true | _ => false end.
+
+Theorem bridge : forall c,
+  is_tx_or_hdr c = true -> wf_case c = true -> run_case c = true -> prop_case c = true.
+Proof.
+  intros [src ctx b bad o alts | src b o alts | | | | ] K Wc R; try discriminate K; clear K.
+  - (* transactions *)
+    cbn [wf_case] in Wc. cbn [run_case] in R. cbn [prop_case]. unfold tx_prop.
+    apply andb_true_iff in Wc as [Wc L].
+    destruct (dec (c_tx (table_valid bad)) b) as [[t r]|] eqn:D.
+    + destruct o as [[n rw txid br same gen]| |]; try discriminate R.
+      pose proof (canon _ (c_tx_ok (table_valid bad)) _ _ _ D) as [E W].
+      repeat match type of R with (_ && _ = true) => let X := fresh "R" in apply andb_true_iff in R as [R X] end.
+      apply N.eqb_eq in R. apply bytes_eqb_eq in R5. apply N.eqb_eq in R4.
+      unfold label_ok in L. apply andb_true_iff in L as [L1 L2].
+      assert (F : firstn (N.to_nat n) b = enc (c_tx (table_valid bad)) t).
+      { rewrite E. apply firstn_enc. rewrite <- E. exact R. }
+      rewrite L1, R2, R1, R0. cbn [andb].
+      rewrite (proj2 (N.leb_le n (nlen b))) by lia. cbn [andb].
+      replace (negb (generated src) || (n =? nlen b)) with true.
+      2:{ symmetry. apply orb_true_iff in L2 as [L2|L2]; [rewrite L2; reflexivity|].
+          destruct r; [|discriminate L2]. unfold nlen in R at 1. cbn in R.
+          rewrite (proj2 (N.eqb_eq n (nlen b))) by lia. apply orb_true_r. }
+      cbn [andb]. rewrite F, <- R5, bytes_eqb_refl. cbn [andb].
+      rewrite E at 1. rewrite (legacy_hdr_enc _ t r W).
+      destruct (is_legacy (fst t)) eqn:Lg.
+      * cbn [negb orb] in R3. apply bytes_eqb_eq in R3. unfold legacy_txid, tx_write in R3.
+        rewrite <- R3, bytes_eqb_refl. rewrite <- R4, (legacy_branch _ ctx t W Lg), N.eqb_refl. reflexivity.
+      * rewrite E at 1. rewrite (encoded_branch _ ctx t r W Lg), R4, N.eqb_refl. reflexivity.
+    + destruct o as [x|e|]; try discriminate R. unfold label_ok in L. rewrite L, R. reflexivity.
+  - (* block headers *)
+    cbn [wf_case] in Wc. cbn [run_case] in R. cbn [prop_case]. unfold hdr_prop.
+    apply andb_true_iff in Wc as [Wc L].
+    destruct (dec c_header b) as [[t r]|] eqn:D.
+    + destruct o as [[n rw hash same]| |]; try discriminate R.
+      pose proof (canon _ c_header_ok _ _ _ D) as [E W].
+      repeat match type of R with (_ && _ = true) => let X := fresh "R" in apply andb_true_iff in R as [R X] end.
+      apply N.eqb_eq in R. apply bytes_eqb_eq in R3. apply bytes_eqb_eq in R2.
+      unfold label_ok in L. apply andb_true_iff in L as [L1 L2].
+      assert (F : firstn (N.to_nat n) b = enc c_header t).
+      { rewrite E. apply firstn_enc. rewrite <- E. exact R. }
+      rewrite L1, R1, R0. cbn [andb].
+      rewrite (proj2 (N.leb_le n (nlen b))) by lia. cbn [andb].
+      replace (negb (generated src) || (n =? nlen b)) with true.
+      2:{ symmetry. apply orb_true_iff in L2 as [L2|L2]; [rewrite L2; reflexivity|].
+          destruct r; [|discriminate L2]. unfold nlen in R at 1. cbn in R.
+          rewrite (proj2 (N.eqb_eq n (nlen b))) by lia. apply orb_true_r. }
+      cbn [andb]. rewrite F, <- R3, bytes_eqb_refl. cbn [andb].
+      unfold header_hash, header_write in R2. rewrite <- R2, bytes_eqb_refl. reflexivity.
+    + destruct o as [x|e|]; try discriminate R. unfold label_ok in L. rewrite L, R. reflexivity.
+Qed.
+
+(** Agreement never coexists with a panic. *)
+Lemma no_panic_bridge : forall src ctx b bad alts, run_case (Tx src ctx b bad Panic alts) = false.
+Proof. intros. cbn [run_case]. destruct (dec _ b) as [[t r]|]; reflexivity. Qed.
+
+(** What an agreeing, accepting transaction case says about the accepted bytes: the consumed
+    prefix is the unique encoding of a well-formed model transaction, so all its length prefixes
+    are canonical and bounded and all its amounts are in range. *)
+Lemma tx_bridge_model : forall src ctx b bad n rw txid br s g alts,
+  run_case (Tx src ctx b bad (Ok (TxOk n rw txid br s g)) alts) = true ->
   exists t r, dec (c_tx (table_valid bad)) b = Some (t, r) /\
               firstn (N.to_nat n) b = enc (c_tx (table_valid bad)) t /\
               wf (c_tx (table_valid bad)) t = true /\
               Forall amount_in_range (tx_unsigned_amounts t) /\
               Forall balance_in_range (tx_signed_amounts t).
 Proof.
-  intros src b bad n rw s h g H. cbn [run_case] in H.
+  intros src ctx b bad n rw txid br s g alts R. cbn [run_case] in R.
   destruct (dec (c_tx (table_valid bad)) b) as [[t r]|] eqn:D; [|discriminate].
-  apply andb_true_iff in H as [H1 H2]. apply N.eqb_eq in H1. apply bytes_eqb_eq in H2.
+  repeat match type of R with (_ && _ = true) => let X := fresh "R" in apply andb_true_iff in R as [R X] end.
+  apply N.eqb_eq in R.
   pose proof (canon _ (c_tx_ok (table_valid bad)) _ _ _ D) as [E W].
-  assert (F : firstn (N.to_nat n) b = enc (c_tx (table_valid bad)) t).
-  { rewrite E. apply firstn_enc. rewrite <- E. exact H1. }
-  split; [lia|]. split; [congruence|].
-  exists t, r. repeat split; try assumption; apply (tx_amounts_in_range (table_valid bad) t W).
+  exists t, r. repeat split; try assumption.
+  - rewrite E. apply firstn_enc. rewrite <- E. exact R.
+  - apply (tx_amounts_in_range (table_valid bad) t W).
+  - apply (tx_amounts_in_range (table_valid bad) t W).
 Qed.
-
-Lemma hdr_bridge : forall src b n rw s h,
-  run_case (Hdr src b (Ok (HdrOk n rw s h))) = true ->
-  n <= nlen b /\ prefix_or b n rw = firstn (N.to_nat n) b /\
-  exists hd r, dec c_header b = Some (hd, r) /\ firstn (N.to_nat n) b = enc c_header hd.
-Proof.
-  intros src b n rw s h H. cbn [run_case] in H.
-  destruct (dec c_header b) as [[t r]|] eqn:D; [|discriminate].
-  apply andb_true_iff in H as [H1 H2]. apply N.eqb_eq in H1. apply bytes_eqb_eq in H2.
-  pose proof (canon _ c_header_ok _ _ _ D) as [E W].
-  assert (F : firstn (N.to_nat n) b = enc c_header t).
-  { rewrite E. apply firstn_enc. rewrite <- E. exact H1. }
-  split; [lia|]. split; [congruence|]. exists t, r. auto.
-Qed.
-
-(** Agreement never coexists with a panic. *)
-Lemma no_panic_bridge : forall src b bad, run_case (Tx src b bad Panic) = false.
-Proof. intros. cbn [run_case]. destruct (dec _ b) as [[t r]|]; reflexivity. Qed.
